@@ -23,12 +23,14 @@
 (* the queue drained, exactly the directories of the watched trees are     *)
 (* marked and each is listed under its true current path (Covered,         *)
 (* OwnTreeOnly); nothing is put on Errors (NoSpuriousError).               *)
-(* FIX_BOUNDARY / FIX_REKEY / FIX_ENOENT / FIX_MOVED describe the repaired *)
-(* defects D4 (two parts), D8 and D10 (found by this model).               *)
+(* FIX_BOUNDARY / FIX_REKEY / FIX_ENOENT / FIX_MOVED / FIX_RMALL describe  *)
+(* the repaired defects D4 (two parts), D8, D10 (found by this model) and  *)
+(* D11 (found by replaying this model's lagging-reader behaviours).        *)
 (***************************************************************************)
 EXTENDS Integers, Sequences, FiniteSets, TLC, SequencesExt
 
 CONSTANTS MaxIno, MaxSteps, FIX_BOUNDARY, FIX_REKEY, FIX_ENOENT,
+          FIX_RMALL,     \* D11 repaired: Remove releases every kernel watch of the tree even if inotify_rm_watch fails for one of them
           FIX_MOVED      \* D10 repaired: a directory moved inside the tree is not looked up by path again (it is watched already)
 
 Comp == {"a", "ab"}
@@ -116,8 +118,14 @@ RemoveRec(r) ==
               wds == {wd} \cup {x.wd : x \in desc} IN
           /\ pathT' = {x \in pathT : x.path # path /\ x \notin desc}
           /\ wdT' = {x \in wdT : x.wd \notin wds}
-          /\ marks' = {m \in marks : m.wd \notin wds}
-          /\ kq' = kq \o SetToSeq({Rec(m.wd, "ignored", "", 0, <<>>) : m \in {m \in marks : m.wd \in wds}})
+          \* inotify_rm_watch one by one (in map order: any order); for a descriptor whose mark is gone already (directory
+          \* deleted, IN_IGNORED still queued) it fails with EINVAL - before D11 the loop stopped there
+          /\ LET gone == {x \in wds : \A m \in marks : m.wd # x} IN
+             \E done \in SUBSET wds :
+                /\ (FIX_RMALL \/ gone = {}) => done = wds
+                /\ (~FIX_RMALL /\ gone # {}) => (gone \cap done = {} /\ done # wds)     \* stopped at the first failure: some were released, the rest not
+                /\ marks' = {m \in marks : m.wd \notin done}
+                /\ kq' = kq \o SetToSeq({Rec(m.wd, "ignored", "", 0, <<>>) : m \in {m \in marks : m.wd \in done}})
           /\ bad' = bad
   /\ added' = added \ {r}
   /\ UNCHANGED <<parent, nm, alive, nextIno, nextWd, ck, nextCk>>
